@@ -153,7 +153,11 @@ impl managed::Manager for TManager {
         self.sh.objs.lock().unwrap()[obj.id as usize].detach += 1;
         // user code, called without the pool's lock: a schedule point like any other (the object still
         // exists here; whatever the pool has already released can be used by another thread now)
-        if !InRetain::active() {
+        if InRetain::active() {
+            // retain() calls detach with the pool's lock held: handled like a parked predicate (the partner
+            // operation runs on a helper thread and may have to wait for A)
+            pseudo_point("pred:detach");
+        } else {
             pseudo_point("cb:detach");
         }
     }
@@ -803,6 +807,16 @@ fn run_sweep_inner(prop: &'static str, sc: &Scenario, ctl: &Arc<Ctl>, record_onl
         }
         ARes::Taken(o) => externals.push(o),
         ARes::Removed(v) => externals.extend(v),
+    }
+    // ---- nothing shrinks, closes or fails in this scenario: then the pool has no reason to destroy an object
+    // (objects removed by retain() or taken are owned by the harness and counted as external)
+    let discards_expected = matches!(sc.a, AOp::Resize(_) | AOp::Close | AOp::Get { recycle_fail: true, .. }) || matches!(sc.b, BOp::Resize(_) | BOp::Close);
+    if !discards_expected {
+        let o = sh.objs.lock().unwrap();
+        let lost: Vec<usize> = o.iter().enumerate().filter(|(_, i)| i.destructed && !i.external).map(|(k, _)| k).collect();
+        if !lost.is_empty() {
+            sh.viol(&["C09", "C02", "C01"], "healthy_object_discarded", format!("objects {:?} were destroyed by the pool although nothing failed and the pool was neither shrunk nor closed", lost));
+        }
     }
     // ---- end-state oracles, at rest
     let end_state = match catch_unwind(AssertUnwindSafe(|| end_state_checks(&sh, &pool, &mut log, &[sc.a_max(), sc.b_max(), Some(st.max)]))) {
